@@ -17,7 +17,7 @@ import (
 
 type Case struct {
 	ID   int     `json:"id"`
-	Kind string  `json:"kind"` // issorted | heap | sort
+	Kind string  `json:"kind"`          // issorted | heap | sort
 	Alg  int     `json:"alg,omitempty"` // sort: 0 SortMerge, 1 SortQuick
 	Lt   int     `json:"lt"`
 	L    []int64 `json:"l,omitempty"`
@@ -29,8 +29,19 @@ type HOp struct {
 	V    int64 `json:"v,omitempty"`
 }
 
-func mod(a, m int64) int64 { r := a % m; if r < 0 { r += m }; return r }
-func abs(a int64) int64 { if a < 0 { return -a }; return a }
+func mod(a, m int64) int64 {
+	r := a % m
+	if r < 0 {
+		r += m
+	}
+	return r
+}
+func abs(a int64) int64 {
+	if a < 0 {
+		return -a
+	}
+	return a
+}
 
 // the comparison family; ids must match lt_of in coq/Model/SortSpec.v
 func ltOf(k int) cmp.LessThan[int64] {
